@@ -125,6 +125,7 @@ def _work(arg):
         dead = []
         for m in w.repo.modules.values():
             dead += m.dead
+            dead += ['(not dead: exec template) ' + e for e in getattr(m, 'expanded', [])]
         out['dead_branches'] = dead
         return out
     except Exception:
